@@ -101,6 +101,7 @@ CLAIMED = {
     "C10": {
         "text": "Reset contracts proved: after every number the parser is fresh; a comma / flagged token always ends the number in progress in every language; French and "
                 "English basic_annotate test each candidate on a scratch builder that is reset between tests (loop invariant; found and fixed a French defect); "
+                "the French rule for 'neuf' is proved exact and local (decided from three true words before and one after, nothing farther away); "
                 "tracker hold/release state is cleared by every sequence breaker. NOT proved: rewrite(A S B) = rewrite(A) S rewrite(B) as a two-run theorem.",
         "note": TRUST + MECH,
         "design_ref": "DESIGN.md §12.3 C10",
